@@ -132,8 +132,8 @@ def theorem(row, feat, t):
         L.append(f"  have hlen : (List.flatten [{pfx}]).length = {lt} := by")
         L.append(f"    {len_simp(enc).replace('hA', hA)}")
         comp = f"((({P}.blocks {ops0}).take {kt}).foldl Ssd.feed (({P}.ctrl.ssd!).withPlanes #[] #[]))"
-        L.append(f"  have main := Ssd.ssd_e2e' _ _ hs ({P}.ctrl.ssd!) (({P}.ctrl.ssd!).withPlanes #[] #[]) (Ssd.withPlanes_ctlEq ..) (Ssd.por_wf ..) {kt} {ct} _ hk")
-        L.append(f"    ({okc}) {lt} {wb} {stride} hlen (by decide +kernel) (by decide +kernel) (by decide +kernel) (by decide +kernel) (by decide +kernel) (by decide +kernel)")
+        L.append(f"  have main := Ssd.ssd_e2e_skip _ _ hs ({P}.ctrl.ssd!) (({P}.ctrl.ssd!).withPlanes #[] #[]) (Ssd.withPlanes_ctlEq ..) (Ssd.por_wf ..) {kt} {ct} _ hk")
+        L.append(f"    ({okc}) {lt} {wb} {stride} hlen (by decide +kernel) (by decide +kernel)")
         L.append(f"  intro j hj")
         L.append(f"  have := main j (by rw [flatten_single]; exact hj)")
         L.append(f"  rw [show {P}.ctrl = .ssd ({P}.ctrl.ssd!) from rfl, Ctrl.run_ssd]")
